@@ -289,6 +289,7 @@ func main() {
 	e2e := flag.String("e2e", "", "write end-to-end play inputs into this directory")
 	e2eN := flag.Int("e2e-n", 12, "")
 	e2eCheck := flag.String("e2echeck", "", "evaluate the plays under this directory")
+	e2eImm := flag.Bool("e2e-immediate", false, "every second actor's SIGHUP handler exits right after its last line")
 	replay := flag.String("replay", "", "replay file written by the check (in-process cases)")
 	flag.Parse()
 	if *replay != "" {
@@ -297,7 +298,7 @@ func main() {
 	}
 	rng := vh.Rng(*seed)
 	if *e2e != "" {
-		writeE2E(rng, *e2e, *e2eN)
+		writeE2E(rng, *e2e, *e2eN, *e2eImm)
 		return
 	}
 	if *e2eCheck != "" {
@@ -564,6 +565,16 @@ func main() {
 		}
 		if len(c.OnlyHelps) > 0 {
 			stats["with-only-helps-watchers"]++
+		}
+		for _, r := range c.Roles {
+			if r.Multi != "" {
+				stats["multiplied-cast-lines"]++
+			}
+		}
+		for _, it := range gitems {
+			if it.Kind == "line" && it.Line.Text == "" {
+				stats["blank-lines"]++
+			}
 		}
 		for _, r := range c.Roles {
 			for _, s := range r.Sigs {
